@@ -354,7 +354,7 @@ def features(r, kind):
          "callback": r.choice(["none", "false", "stop"]),
          "ftarget": r.choice(["none", "none", "float"]), "gtol_callable": False,
          "scaler": r.choice(["none", "none", "const", "packaged"]),
-         "update": r.choice(["none", "none", "none", "identity"])}
+         "update": r.choice(["none", "none", "none", "identity"]), "bounds_spelling": "array"}
     if kind in ("twice", "frozen"):
         f["callback"] = "none"
         f["ftarget"] = "none"
